@@ -62,6 +62,37 @@ void harness(void)
 	WITNESS("one command decoded");
 }
 
+/* the copy kernel against the SEQUENTIAL definition of an LZ77 copy, on the scaled window (hook in lib/lzs_decoder.c),
+ * concrete write position per variant (KPOS): seam crossing x self-overlap in every combination, default array encoding */
+#ifdef KPOS
+#define RINGS LHASA_VERIF_RING_BUFFER_SIZE
+void harness_kernel_seq(void)
+{
+	INPUT(u32, start);
+	INPUT(u32, len);
+	u8 out[OUTPUT_BUFFER_SIZE];
+	u8 r[RINGS];
+	LHALZSDecoder d0;
+	size_t n = 0;
+	unsigned i, rp = KPOS;
+	ASSUME(start < 2048 && len >= 2 && len <= 17);
+	dec = d0;
+	dec.ringbuf_pos = KPOS;
+	for (i = 0; i < RINGS; ++i) r[i] = d0.ringbuf[i];
+	output_block(&dec, out, &n, start, len);
+	CHECK(n == len, "copy appends exactly len bytes to the output");
+	for (i = 0; i < 17; ++i) if (i < len) {
+		u8 b = r[(start + i) % RINGS];
+		CHECK(out[i] == b, "copy byte i is the window content at start+i when it is copied (sequential LZ77 semantics)");
+		r[rp] = b; rp = (rp + 1) % RINGS;
+	}
+	CHECK(dec.ringbuf_pos == rp, "write position advances modulo the window size");
+	for (i = 0; i < RINGS; ++i) CHECK(dec.ringbuf[i] == r[i], "window after the copy = window with the copied bytes appended");
+	if (len == 17 && start % RINGS > RINGS - 9 && (start + 17) % RINGS > KPOS) WITNESS("source crosses the seam and runs into the bytes being written");
+	WITNESS("kernel");
+}
+#endif
+
 /* init state: ring of spaces, write position 2048-17 */
 void harness_init(void)
 {
